@@ -1,7 +1,34 @@
+import os, subprocess, sys
+sys.path.insert(0, os.path.join(os.path.dirname(os.path.dirname(os.path.abspath(__file__))), "lib"))
+import vcheck
+
 T = "GeomV.C10."
+TIES = ["LongLat", "Merc", "TMerc", "UTM", "LCC", "AEA", "EqdC", "Krovak", "Registered", "Path"]
+
+
+def pregen(check):
+    """Regenerate lean/GeomV/C10/GenWrites.lean from the Go source of the tree under test (go/ast extractor
+    harness/cmd/c10/astwrites): per projection constructor the set of SR fields it assigns, and per function
+    on a transformer's call path the fields it assigns through its *SR/*datum parameters.  The tie modules
+    GeomV.C10.Ties.<Ctor> compare them with the model's write sets; a difference fails `lake build` of the
+    module named after the constructor."""
+    out = os.path.join(vcheck.LEAN, "GeomV", "C10", "GenWrites.lean")
+    with vcheck.Lock("go"):
+        p = subprocess.run(["go", "run", "./cmd/c10/astwrites", os.path.join(vcheck.REPO, "proj")], cwd=vcheck.HARNESS,
+                           env=vcheck.GOENV, stdout=subprocess.PIPE, stderr=subprocess.PIPE, text=True)
+    if p.returncode != 0 or "namespace GeomV.C10.Gen" not in p.stdout:
+        check.broken.append("write-set extractor failed on %s/proj: %s" % (vcheck.REPO, p.stderr.strip()[-300:]))
+        return
+    old = open(out).read() if os.path.exists(out) else ""
+    if old != p.stdout:
+        open(out, "w").write(p.stdout)
+        vcheck.log("C10: GenWrites.lean regenerated (write sets of the Go source changed)")
+
+
 CFG = {
     "id": "C10",
-    "lean_modules": ["GeomV.C10.Proofs"],
+    "lean_modules": ["GeomV.C10.Proofs"] + ["GeomV.C10.Ties." + t for t in TIES],
+    "pregen": pregen,
     "exe": "geomv_c10",
     "go_cmd": "c10",
     "stages": ["go:gen", "go:impl", "lean:judge"],
@@ -9,6 +36,8 @@ CFG = {
         "C10_structure", "C10_map_vertices", "C10_vertex_i", "C10_nil_identity", "C10_error_no_panic",
         "C10_pure", "C10_pure_last", "C10_pure_states", "C10_history_state", "C10_step_state_eq",
         "C10_no_index_fault", "C10_no_panic", "C10_input_unchanged_partial",
+        "C10_init_idempotent", "C10_init_frame", "C10_CoreOK_ctors", "C10_pure_ctors",
+    ]] + [T + "tie_" + t for t in TIES] + [T + n for n in [
     ]],
     "trusted_base": [
         "Lean 4.33.0 kernel; axioms of every theorem printed by #print axioms must be within {propext, Classical.choice, Quot.sound}",
